@@ -304,6 +304,7 @@ func runC13(r *harness.Run) {
 	// a fixed schedule is a consequence of that race, not a harness defect
 	t0 := time.Now()
 	raceFound := c13RacePass(r)
+	c13SeqHistories(r) // no scheduler is installed yet: the channel operations run on the real reflect package
 	r.Extra["seconds_race_pass"] = int(time.Since(t0).Seconds())
 	t0 = time.Now()
 	outcomes := sync.Map{}
